@@ -28,7 +28,7 @@ func genC17(w *World, res *CheckResult) {
 	// "wherever the occurrence sits": the traversal obligations of C10
 	tmp := &CheckResult{Extra: map[string]interface{}{}}
 	genC10(w, tmp)
-	res.Obls = append(res.Obls, selectObls(tmp.Obls, `^ast\.walk\[`, `walk-root`, `^ast\.Patch\[`)...)
+	res.Obls = append(res.Obls, selectObls(tmp.Obls, `^ast\.walk\[`, `walk-root`, `^ast\.Patch\[`, `^module/rewrites-go-through-ast\.Patch$`)...)
 	res.Functions = append(res.Functions, "ast.walker.walk", "ast.Patch")
 	// the call the operator is replaced by evaluates its operands in order and calls the function once
 	obls, _ := genTemplates(w)
